@@ -35,7 +35,7 @@ META = {
   rule="reference-encoded messages (independent encoder, caller-chosen compression anywhere, OPT at any index) with RDLENGTH made larger/smaller than the natural size (+-1, +2, +7, to the end of the message, past it, zero), the same with surplus bytes inserted so that the envelope stays consistent and more records follow, every count +-1, truncations, plus valid library-built packets; Packet::parse compared exactly with the model; oracle: an independent RFC 1035 envelope walker in the harness, each returned question/record compared with its entry (owner, type, class, flush, ttl), and RDATA re-parsed from the message cut at the record's end; non-trivial = distinct (request, output)",
   assumptions=STD, timeout=dict(quick=600, thorough=7200)),
  "C11": dict(
-  extra_modules=["TieEnv", "C04C07C11More"],
+  extra_modules=["TieEnv", "C04C07C11More", "C11Iff"],
   rule="parser-accepted inputs among: reference-encoded messages with arbitrary compression, unknown types/classes of content, empty RDATA, OPT anywhere, RDLENGTH/count perturbations, every 37th (quick) or every (thorough) header word; chain parse -> build (plain and compressed) -> parse on the library, each stage compared with the model; oracle: the re-parsed packet equals the first; non-trivial = accepted inputs",
   assumptions=STD, timeout=dict(quick=600, thorough=7200)),
  "C17": dict(
